@@ -1,7 +1,7 @@
 """C04 - an active object dispatches every posted event exactly once, in queue order (operation level)."""
 from . import ao_targets as A
 from . import queue_targets as Q
-from .C16 import t_ld_put, t_ld_clear
+from .C16 import t_ld_put, t_ld_clear, t_ao_init_subclass
 from .registry import OPLEVEL
 
 LEVEL = 'proof'
@@ -26,4 +26,4 @@ def build(src, tier):
     w2 = Q.world_for(src, tier)
     return [(w, [A.t_run_event_iteration(), A.t_ao_start()]),
             (w2, [Q.t_post('ActiveObject', 'fifo', ('C04',)), Q.t_post('ActiveObject', 'lifo', ('C04',)),
-                  Q.t_next_rtc('ActiveObject'), t_ld_put('fifo'), t_ld_put('lifo'), t_ld_clear()])]
+                  Q.t_next_rtc('ActiveObject'), t_ld_put('fifo'), t_ld_put('lifo'), t_ld_clear(), t_ao_init_subclass()])]
